@@ -41,8 +41,8 @@ META = {
             "handlers, nested loops, calls) with the theorems that in a task every end of an iteration that does not leave the loop - the body "
             "ran to its end or `continue` from any depth - is the last thing the turn does (YieldException(true), the task goes to the back of "
             "the queue), that outside a task it is followed at once by run_background_tasks_one_cycle, for all statements, environments and "
-            "suspension histories; both are refuted for a while loop whose iteration ends by `continue` (known finding, reproduced on the "
-            "binary). The model is tied to the code on every run by trace equality on "
+            "suspension histories - for the while loop's `continue` path too since fix a1ebdfd (former finding "
+            "C15-while-continue-no-suspension, now a regression replay). The model is tied to the code on every run by trace equality on "
             "generated task programs (<= 4 functions, <= 4 suspension points each, nested awaits, loops whose iterations end in every way in "
             "tasks / main / called functions, plain calls, sleep/timeout on a virtual clock), exhaustive for small alphabets.",
     "note": "Trusted: Coq kernel (vm_compute for the refutation witnesses), no axioms (Print Assumptions: closed); extraction via ExtrOcamlBasic+"
@@ -871,47 +871,46 @@ def split_model(mlines):
 def loop_markers(prog):
     """tag -> facts about the loop whose iterations start by printing that tag (the first print of the
     loop body).  fk/stmt: function and top-level statement; main: a loop that runs outside any task
-    (main's body or a plain function called from it); wc: the loop, or a loop around it, is a while
-    loop whose iteration can end by `continue` (known finding C15-while-continue-no-suspension: the
-    two-iterations rules are not applied); exits: the top-level statement contains break / return
-    (a turn that prints the marker may then end without a loop yield)."""
+    (main's body or a plain function called from it); exits: the top-level statement contains break /
+    return (a turn that prints the marker may then end without a loop yield).  (Until fix a1ebdfd the
+    two-iterations rules were not applied to a while loop whose iteration can end by `continue`, former
+    finding C15-while-continue-no-suspension; they apply to every loop now.)"""
     mk = {}
     for fk, body in enumerate(prog["funs"]):
         for i, st in enumerate(body):
             if st[0] == "L" and fk:
                 for x in st[2]:
                     if x[0] == "P":
-                        mk[x[1]] = {"fk": fk, "stmt": i, "main": False, "wc": False, "exits": False}; break
+                        mk[x[1]] = {"fk": fk, "stmt": i, "main": False, "exits": False}; break
                     if x[0] == "C" and x[1]:
-                        mk[x[1][0]] = {"fk": fk, "stmt": i, "main": False, "wc": False, "exits": False}; break
+                        mk[x[1][0]] = {"fk": fk, "stmt": i, "main": False, "exits": False}; break
             if st[0] == "X":
                 exits = any(x[0] in ("brk", "ret") for x in b_walk(st[1]))
 
-                def visit(b, wc, in_call):
+                def visit(b, in_call):
                     k = b[0]
                     if k in ("for", "whl"):
                         bod = b[3] if k == "for" else b[2]
-                        wc2 = wc or (k == "whl" and can_continue(bod))
                         items = bod[1] if bod[0] == "blk" else [bod]
                         for x in items:
                             if x[0] in ("inc", "set"):
                                 continue
                             if x[0] == "x" and x[1][0] == "P":
                                 if fk == 0 or not in_call:
-                                    mk[x[1][1]] = {"fk": fk, "stmt": i, "main": fk == 0, "wc": wc2, "exits": exits}
+                                    mk[x[1][1]] = {"fk": fk, "stmt": i, "main": fk == 0, "exits": exits}
                             break
-                        visit(bod, wc2, in_call)
+                        visit(bod, in_call)
                     elif k == "call":
                         for c in b[1]:
-                            visit(c, False, True)
+                            visit(c, True)
                     else:
                         for c in b_children(b):
-                            visit(c, wc, in_call)
-                visit(st[1], False, False)
+                            visit(c, in_call)
+                visit(st[1], False)
     return mk
 
 
-def oracle(lines, vals, flags, prog=None, strict_wc=False):
+def oracle(lines, vals, flags, prog=None):
     """The property's own reading, evaluated on the IMPLEMENTATION's trace (never on the model's):
       * turns are served in the order ids were pushed (FIFO), the skip branch is never taken, a finished
         task gets no turn, a task is blocked only on an unfinished task;
@@ -931,9 +930,6 @@ def oracle(lines, vals, flags, prog=None, strict_wc=False):
     queue = []                 # the ready queue as the trace itself implies it
     since = {}                 # queued task -> {other task: turns since it was queued}
     markers = loop_markers(prog) if prog else {}
-    if strict_wc:                    # replay of the known finding: no exemption for while loops with continue
-        for t in markers:
-            markers[t]["wc"] = False
     spans = []                 # open turns: [task, {marker tag: count}, yielded_loop, turns of others since first marker]
     main_last = {}             # marker tag of a loop outside any task -> (turns so far, queue non-empty) at its latest print
 
@@ -952,13 +948,13 @@ def oracle(lines, vals, flags, prog=None, strict_wc=False):
                 # a loop of main (or of a plain function main calls): its iteration boundary runs the
                 # background tasks, so two iteration starts with a non-empty queue have a turn between them
                 prev = main_last.get(tag)
-                if prev and prev[1] and prev[0] == len(turns) and not markers[tag]["wc"]:
+                if prev and prev[1] and prev[0] == len(turns):
                     bad.append("main ran two iterations of its loop (statement %d) back to back while tasks were queued: no "
                                "background cycle at the loop-iteration boundary" % markers[tag]["stmt"])
                 main_last[tag] = (len(turns), bool(queue))
             elif tag in markers and spans and not markers[tag]["main"]:
                 sp = spans[-1]
-                if sp[1].get(tag) and not markers[tag]["wc"]:
+                if sp[1].get(tag):
                     fk, i = markers[tag]["fk"], markers[tag]["stmt"]
                     others = sp[3]
                     worst = max([others.count(o) for o in set(others)] or [0])
@@ -1005,7 +1001,7 @@ def oracle(lines, vals, flags, prog=None, strict_wc=False):
         elif ev in ("requeue", "complete"):
             if spans and spans[-1][0] == w[2]:
                 sp = spans.pop()
-                if sp[1] and not sp[2] and ev == "requeue" and not any(markers[t]["exits"] or markers[t]["wc"] for t in sp[1]):
+                if sp[1] and not sp[2] and ev == "requeue" and not any(markers[t]["exits"] for t in sp[1]):
                     tag = next(iter(sp[1]))
                     fk, i = markers[tag]["fk"], markers[tag]["stmt"]
                     bad.append("task %s finished an iteration of its loop (statement %d of f%d) but its turn did not end with a "
@@ -1232,7 +1228,7 @@ def replay_finding(f, impl_dir):
                 break
         return spins > 1, nl
     if f["replay"]["kind"] == "loop-two-iterations":
-        fails = oracle(nl, vals, set(), prog, strict_wc=True)
+        fails = oracle(nl, vals, set(), prog)
         return any("two iterations" in x for x in fails), nl
     if f["replay"]["kind"] == "hang":
         rc, lines = run_impl(impl_dir, prog, timeout=3)
@@ -1397,6 +1393,12 @@ def run(rep):
         if os.path.exists(corpus):
             for c in json.load(open(corpus)):
                 yield c, "corpus"
+        # the programs of repaired findings (known_findings/C15.json fixed_replays carry the generator's AST): trace equality
+        # with the model and the oracle, in addition to the stdout comparison of common.run_fixed_replays
+        kf = os.path.join(common.VERIF, "known_findings", PROP + ".json")
+        for fr in json.load(open(kf)).get("fixed_replays", []):
+            if fr.get("ast"):
+                yield fr["ast"], "fixed-replay"
         for natoms, ntasks in exh:
             for p in exhaustive_programs(natoms, ntasks):
                 yield p, "exhaustive"
